@@ -241,6 +241,14 @@ def strip_bodies(o, names, env):
     with lk:
         if os.path.exists(o2):
             return o2
+        if len(names) == 1 and names[0].startswith("!"):
+            # keep only the functions matching the regex, strip every other body of this unit
+            rc, out, err, _, _ = slot_sh(["goto-instrument", "--list-goto-functions", o], timeout=120, env=env)
+            allf = [m.group(1) for m in re.finditer(r"^(\S+) /\* \S+ \*/$", out, re.M)]
+            keep = re.compile(names[0][1:])
+            names = [f for f in allf if not keep.search(f) and not f.startswith("__CPROVER")]
+            if not allf or len(names) == len(allf):
+                raise Infra("strip: keep-regex %s matched nothing in %s" % (keep.pattern, o))
         cmd = ["goto-instrument"]
         for p in names:
             cmd += ["--remove-function-body", p]
